@@ -53,11 +53,32 @@ impl<'a> Iterator for TokenIterator<'a> {
     type Item = Token;
 
     fn next(&mut self) -> Option<Token> {
+        // Blanks and line continuations are skipped here, instead of
+        // calling next() again for every one of them.
+        loop {
+            match self.0.peek() {
+                Some(' ') | Some('\t') => {
+                    self.0.next();
+                }
+                Some('\\') => {
+                    let mut ahead = self.0.clone();
+                    ahead.next();
+                    match (ahead.next(), ahead.peek()) {
+                        (Some('\n'), _) => (),
+                        (Some('\r'), Some('\n')) => {
+                            ahead.next();
+                        }
+                        _ => break,
+                    }
+                    self.0 = ahead;
+                }
+                _ => break,
+            }
+        }
         if self.0.peek().is_none() {
             return Some(Token::Eof);
         }
         let res = match self.0.next().unwrap() {
-            ' ' | '\t' => return self.next(),
             '\r' => {
                 if self.0.peek() == Some(&'\n') {
                     self.0.next();
